@@ -25,7 +25,7 @@ use std::collections::{BTreeMap, BTreeSet, HashMap};
 /// ~30 lexical forms: plain names, IRIs, strings that look like identifiers (decimal ids, the
 /// quoted-range boundary), unicode (precomposed vs decomposed must stay distinct), the empty string,
 /// strings with significant blanks, and strings that look like the engine's own syntax.
-const POOL: [&str; 30] = [
+const BASE_POOL: [&str; 30] = [
     "a",
     "b",
     "c",
@@ -58,6 +58,21 @@ const POOL: [&str; 30] = [
     "<< a b c >>",
 ];
 
+/// The string pool: the 30 short strings above plus long terms (large literal payloads) whose lengths sit on and
+/// around 1 KiB and 4 KiB — a dictionary must treat them like any other term.
+fn pool() -> &'static [&'static str] {
+    static P: std::sync::OnceLock<Vec<&'static str>> = std::sync::OnceLock::new();
+    P.get_or_init(|| {
+        let mut v: Vec<&'static str> = BASE_POOL.to_vec();
+        for (n, c) in [(1023usize, 'k'), (1024, 'l'), (1025, 'm'), (1500, 'n'), (4097, 'w')] {
+            let s: String = std::iter::once('L').chain(std::iter::repeat(c).take(n - 1)).collect();
+            v.push(Box::leak(s.into_boxed_str()));
+        }
+        v
+    })
+}
+
+
 /// Usable as a bare word or inside `<...>` in the `<< s p o >>` surface syntax of encode_term_star:
 /// the documented normalisation (trim, strip <>, strip "") leaves exactly this string.
 fn star_safe(s: &str) -> bool {
@@ -79,7 +94,7 @@ fn star_raw_ok(s: &str) -> bool {
 }
 
 fn idx_where(f: fn(&str) -> bool) -> Vec<usize> {
-    (0..POOL.len()).filter(|i| f(POOL[*i])).collect()
+    (0..pool().len()).filter(|i| f(pool()[*i])).collect()
 }
 
 #[derive(Clone, Copy, Debug, Serialize, Deserialize, PartialEq, Eq)]
@@ -99,9 +114,9 @@ enum Tm {
 impl Tm {
     fn surface(&self) -> String {
         match self {
-            Tm::A(Form::Bare, i) => POOL[*i].to_string(),
-            Tm::A(Form::Iri, i) => format!("<{}>", POOL[*i]),
-            Tm::A(Form::Lit, i) => format!("\"{}\"", POOL[*i]),
+            Tm::A(Form::Bare, i) => pool()[*i].to_string(),
+            Tm::A(Form::Iri, i) => format!("<{}>", pool()[*i]),
+            Tm::A(Form::Lit, i) => format!("\"{}\"", pool()[*i]),
             Tm::Q(s, p, o) => format!("<< {} {} {} >>", s.surface(), p.surface(), o.surface()),
         }
     }
@@ -122,7 +137,7 @@ impl Tm {
     }
     fn lt(&self) -> LT {
         match self {
-            Tm::A(_, i) => LT::P(POOL[*i].to_string()),
+            Tm::A(_, i) => LT::P(pool()[*i].to_string()),
             Tm::Q(s, p, o) => LT::Q(Box::new((s.lt(), p.lt(), o.lt()))),
         }
     }
@@ -161,8 +176,8 @@ impl LT {
 
 /// `vocab`: pool indices the atoms may use (whole pool for part dict).
 fn atom_strategy(vocab: &[usize], nested: bool) -> BoxedStrategy<Tm> {
-    let safe: Vec<usize> = vocab.iter().copied().filter(|i| star_safe(POOL[*i])).collect();
-    let lit: Vec<usize> = vocab.iter().copied().filter(|i| if nested { lit_nested_ok(POOL[*i]) } else { lit_top_ok(POOL[*i]) }).collect();
+    let safe: Vec<usize> = vocab.iter().copied().filter(|i| star_safe(pool()[*i])).collect();
+    let lit: Vec<usize> = vocab.iter().copied().filter(|i| if nested { lit_nested_ok(pool()[*i]) } else { lit_top_ok(pool()[*i]) }).collect();
     assert!(!safe.is_empty());
     (0u8..6, sel())
         .prop_map(move |(f, s)| match f {
@@ -207,7 +222,7 @@ enum IdSel {
 
 #[derive(Clone, Debug, Serialize, Deserialize, PartialEq)]
 enum DOp {
-    /// Dictionary::encode(POOL[i]) on the database's dictionary
+    /// Dictionary::encode(pool()[i]) on the database's dictionary
     DictEnc(usize),
     /// Dictionary::decode / decode_term
     DictDec(IdSel),
@@ -219,7 +234,7 @@ enum DOp {
     /// encode_term_star of the term of an earlier Star operation (selector over those), optionally with
     /// bare words and <iri> spellings swapped: the same term must get the same id again
     StarAgain(u16, bool),
-    /// SparqlDatabase::encode_term_star(POOL[i]) for strings whose documented normalisation is trim()
+    /// SparqlDatabase::encode_term_star(pool()[i]) for strings whose documented normalisation is trim()
     StarRaw(usize),
     DecodeAny(IdSel),
     /// fork the dictionary, encode these pool strings plus `fresh` new ones in the fork, Dictionary::merge it back
@@ -358,10 +373,10 @@ impl DictState {
     fn learn(&mut self, tm: &Tm, id: u32, ctx: &str) -> Result<(), Fail> {
         match tm {
             Tm::A(_, i) => {
-                self.m.note_plain(POOL[*i], id, ctx)?;
+                self.m.note_plain(pool()[*i], id, ctx)?;
                 let got = self.db.dictionary.read().unwrap().decode(id).map(|s| s.to_string());
-                if got.as_deref() != Some(POOL[*i]) {
-                    return Err(("c15.dict.plain.roundtrip".into(), format!("{ctx}: decode(encode({:?})) = {:?} (id {id})", POOL[*i], got)));
+                if got.as_deref() != Some(pool()[*i]) {
+                    return Err(("c15.dict.plain.roundtrip".into(), format!("{ctx}: decode(encode({:?})) = {:?} (id {id})", pool()[*i], got)));
                 }
                 Ok(())
             }
@@ -466,11 +481,11 @@ impl DictState {
         let ctx = format!("step {i} {:?}", op);
         match op {
             DOp::DictEnc(p) => {
-                let id = self.db.dictionary.write().unwrap().encode(POOL[*p]);
-                self.m.note_plain(POOL[*p], id, &ctx)?;
+                let id = self.db.dictionary.write().unwrap().encode(pool()[*p]);
+                self.m.note_plain(pool()[*p], id, &ctx)?;
                 let got = self.db.dictionary.read().unwrap().decode(id).map(|s| s.to_string());
-                if got.as_deref() != Some(POOL[*p]) {
-                    return Err(("c15.dict.plain.roundtrip".into(), format!("{ctx}: decode(encode({:?})) = {:?} (id {id})", POOL[*p], got)));
+                if got.as_deref() != Some(pool()[*p]) {
+                    return Err(("c15.dict.plain.roundtrip".into(), format!("{ctx}: decode(encode({:?})) = {:?} (id {id})", pool()[*p], got)));
                 }
             }
             DOp::DictDec(sel) => {
@@ -541,12 +556,12 @@ impl DictState {
                 }
             }
             DOp::StarRaw(p) => {
-                let stored = POOL[*p].trim();
-                let id = self.db.encode_term_star(POOL[*p]);
+                let stored = pool()[*p].trim();
+                let id = self.db.encode_term_star(pool()[*p]);
                 self.m.note_plain(stored, id, &ctx)?;
                 let got = self.db.decode_any(id);
                 if got.as_deref() != Some(stored) {
-                    return Err(("c15.dict.star.roundtrip".into(), format!("{ctx}: decode_any(encode_term_star({:?})) = {:?}, expected {:?}", POOL[*p], got, stored)));
+                    return Err(("c15.dict.star.roundtrip".into(), format!("{ctx}: decode_any(encode_term_star({:?})) = {:?}, expected {:?}", pool()[*p], got, stored)));
                 }
             }
             DOp::DecodeAny(sel) => {
@@ -558,7 +573,7 @@ impl DictState {
                 let mut fork: Dictionary = self.db.dictionary.read().unwrap().clone();
                 let mut learned: Vec<(String, u32)> = vec![];
                 for e in extra {
-                    learned.push((POOL[*e].to_string(), fork.encode(POOL[*e])));
+                    learned.push((pool()[*e].to_string(), fork.encode(pool()[*e])));
                 }
                 for _ in 0..*fresh {
                     self.fresh_counter += 1;
@@ -682,8 +697,8 @@ fn run_dict(c: &DCase) -> Outcome {
     out.class_if(st.m.quoted_order.len() >= 20, "quoted>=20");
     let has = |f: &dyn Fn(&DOp) -> bool| c.ops.iter().any(|o| f(o));
     out.class_if(has(&|o| matches!(o, DOp::MergeFork(..))), "merge-fork");
-    out.class_if(has(&|o| matches!(o, DOp::DictEnc(p) if POOL[*p].is_empty())), "empty-string");
-    out.class_if(has(&|o| matches!(o, DOp::DictEnc(p) if POOL[*p].parse::<i64>().is_ok())), "looks-like-id");
+    out.class_if(has(&|o| matches!(o, DOp::DictEnc(p) if pool()[*p].is_empty())), "empty-string");
+    out.class_if(has(&|o| matches!(o, DOp::DictEnc(p) if pool()[*p].parse::<i64>().is_ok())), "looks-like-id");
     out.class_if(st.m.plain.contains_key("\u{e9}") && st.m.plain.contains_key("e\u{301}"), "unicode-nfc-nfd-pair");
     out.class_if(st.m.plain.contains_key("a") && st.m.plain.contains_key("a ") || st.m.plain.contains_key("a") && st.m.plain.contains_key(" a"), "blank-variants");
     out
@@ -699,7 +714,7 @@ impl Part for DictPart {
         tier.pick(15_000, 100_000)
     }
     fn strategy(&self, tier: Tier) -> BoxedStrategy<DCase> {
-        let all: Vec<usize> = (0..POOL.len()).collect();
+        let all: Vec<usize> = (0..pool().len()).collect();
         let raw_ok = idx_where(star_raw_ok);
         let idsel = prop_oneof![
             4 => sel().prop_map(IdSel::Plain),
@@ -709,7 +724,7 @@ impl Part for DictPart {
         ];
         let tm = tm_strategy(&all, 3, false, 5);
         let op = prop_oneof![
-            6 => sel().prop_map(|s| DOp::DictEnc(pick_idx(s, POOL.len()))),
+            6 => sel().prop_map(|s| DOp::DictEnc(pick_idx(s, pool().len()))),
             2 => idsel.clone().prop_map(DOp::DictDec),
             5 => (idsel.clone(), idsel.clone(), idsel.clone()).prop_map(|(a, b, c)| DOp::QtEnc(a, b, c)),
             2 => idsel.clone().prop_map(DOp::QtDec),
@@ -717,7 +732,7 @@ impl Part for DictPart {
             3 => (sel(), any::<bool>()).prop_map(|(k, w)| DOp::StarAgain(k, w)),
             2 => sel().prop_map(move |s| DOp::StarRaw(raw_ok[pick_idx(s, raw_ok.len())])),
             2 => idsel.prop_map(DOp::DecodeAny),
-            1 => (proptest::collection::vec(sel().prop_map(|s| pick_idx(s, POOL.len())), 0..4), 0u8..3).prop_map(|(e, f)| DOp::MergeFork(e, f)),
+            1 => (proptest::collection::vec(sel().prop_map(|s| pick_idx(s, pool().len())), 0..4), 0u8..3).prop_map(|(e, f)| DOp::MergeFork(e, f)),
             1 => Just(DOp::Snapshot),
             1 => Just(DOp::MergeOld),
         ];
@@ -801,7 +816,7 @@ fn prob_of(s: &LT, p: &LT, o: &LT) -> f64 {
 }
 
 fn raw(i: usize) -> LT {
-    LT::P(POOL[i].to_string())
+    LT::P(pool()[i].to_string())
 }
 
 fn note_tm(m: &mut Lex, t: &Tm) -> LT {
@@ -813,14 +828,14 @@ fn note_tm(m: &mut Lex, t: &Tm) -> LT {
 fn apply(db: &mut SparqlDatabase, m: &mut Lex, op: &UOp) {
     match op {
         UOp::TripleParts(s, p, o) => {
-            db.add_triple_parts(POOL[*s], POOL[*p], POOL[*o]);
+            db.add_triple_parts(pool()[*s], pool()[*p], pool()[*o]);
             m.quads.insert((None, raw(*s), raw(*p), raw(*o)));
         }
         UOp::QuadParts(s, p, o, g) => {
-            db.add_quad_parts(&s.surface(), &p.surface(), &o.surface(), POOL[*g]);
+            db.add_quad_parts(&s.surface(), &p.surface(), &o.surface(), pool()[*g]);
             let (ls, lp, lo) = (note_tm(m, s), note_tm(m, p), note_tm(m, o));
-            m.quads.insert((Some(POOL[*g].to_string()), ls, lp, lo));
-            m.named.insert(POOL[*g].to_string());
+            m.quads.insert((Some(pool()[*g].to_string()), ls, lp, lo));
+            m.named.insert(pool()[*g].to_string());
         }
         UOp::StarTriple(s, p, o) => {
             let t = Triple { subject: db.encode_term_star(&s.surface()), predicate: db.encode_term_star(&p.surface()), object: db.encode_term_star(&o.surface()) };
@@ -830,20 +845,20 @@ fn apply(db: &mut SparqlDatabase, m: &mut Lex, op: &UOp) {
         }
         UOp::StarQuad(s, p, o, g) => {
             let (si, pi, oi) = (db.encode_term_star(&s.surface()), db.encode_term_star(&p.surface()), db.encode_term_star(&o.surface()));
-            let gi = db.dictionary.write().unwrap().encode(POOL[*g]);
+            let gi = db.dictionary.write().unwrap().encode(pool()[*g]);
             db.add_quad(Quad { subject: si, predicate: pi, object: oi, graph: GraphId::Named(gi) });
             let (ls, lp, lo) = (note_tm(m, s), note_tm(m, p), note_tm(m, o));
-            m.quads.insert((Some(POOL[*g].to_string()), ls, lp, lo));
-            m.named.insert(POOL[*g].to_string());
+            m.quads.insert((Some(pool()[*g].to_string()), ls, lp, lo));
+            m.named.insert(pool()[*g].to_string());
         }
         UOp::CreateGraph(g) => {
-            let gi = db.dictionary.write().unwrap().encode(POOL[*g]);
+            let gi = db.dictionary.write().unwrap().encode(pool()[*g]);
             db.dataset_index.create_graph(GraphId::Named(gi));
-            m.named.insert(POOL[*g].to_string());
+            m.named.insert(pool()[*g].to_string());
         }
         UOp::Tagged(s, p, o) => {
             let pr = prob_of(&raw(*s), &raw(*p), &raw(*o));
-            db.add_tagged_triple(POOL[*s], POOL[*p], POOL[*o], pr);
+            db.add_tagged_triple(pool()[*s], pool()[*p], pool()[*o], pr);
             m.quads.insert((None, raw(*s), raw(*p), raw(*o)));
             m.seeds.insert((raw(*s), raw(*p), raw(*o)), pr.to_bits());
         }
@@ -861,7 +876,7 @@ fn apply(db: &mut SparqlDatabase, m: &mut Lex, op: &UOp) {
             note_tm(m, t);
         }
         UOp::EncodeRaw(i) => {
-            db.dictionary.write().unwrap().encode(POOL[*i]);
+            db.dictionary.write().unwrap().encode(pool()[*i]);
         }
     }
 }
@@ -1267,7 +1282,7 @@ impl Part for UnionPart {
         let safe2 = safe.clone();
         (
             proptest::collection::vec(sel().prop_map(move |s| safe2[pick_idx(s, safe2.len())]), 2..=6),
-            proptest::collection::vec(sel().prop_map(|s| pick_idx(s, POOL.len())), 0..=4),
+            proptest::collection::vec(sel().prop_map(|s| pick_idx(s, pool().len())), 0..=4),
             0u8..4,
         )
             .prop_flat_map(move |(vs, va, mode)| {
